@@ -215,7 +215,7 @@ func checkC11(p *Prog, r *Report) {
 	/* 2: output. */
 	if pout := findProxyOut(p); nil != pout {
 		r.Saw("func " + fnName(pout))
-		och := p.Field(iobPkg, "Broker", "och")
+		och := brokerChan(p, "CLine")
 		var hand *queueSend
 		for _, s := range sendsIn(pout) {
 			s := s
